@@ -1,8 +1,9 @@
 import DeapModel.Core.Resume
+import DeapModel.Core.Migration
 import Driver.Proto
 /-! Protocol handler for C17 (checkpoint algebra, order-preserving parallel map). -/
 namespace DriverC17
-open Proto Resume
+open Proto Resume Migration
 
 /-- The mapped function of the `pmap` op. -/
 def f (x : Int) : Int := 3 * x + 1
@@ -17,6 +18,18 @@ def showPair (p : Int × Int) : String := toString p.1 ++ "," ++ toString p.2
 def parseDrop (s : String) : Option Bool :=
   if s = "0" then some false else if s = "1" then some true else none
 
+def parseInd (s : String) : Option (Nat × Nat) :=
+  match s.splitOn "." with
+  | [a, b] => do let x ← parseNat a; let y ← parseNat b; pure (x, y)
+  | _ => none
+
+/-- demes: `;`-separated lists (`-` = an empty deme), `.` = no deme at all -/
+def parseDemes (s : String) : Option (List (List (Nat × Nat))) :=
+  if s = "." then some [] else (s.splitOn ";").mapM (parseList parseInd)
+
+def showDemes (l : List (List (Nat × Nat))) : String :=
+  if l.isEmpty then "." else ";".intercalate (l.map (showList (fun x => toString x.2)))
+
 def handle : List String → String
   | ["pmap", xs, sched] =>
     match (do let l ← parseList parseInt xs; let sc ← parseList parseNat sched; pure (l, sc)) with
@@ -28,6 +41,23 @@ def handle : List String → String
     | some (n, k, s, d) =>
       let r := toyRun d
       showPair (run r n s) ++ " " ++ showOpt showPair (resumeFrom r k n s)
+    | none => "bad-op"
+  | ["hresume", us, ns, ks, vs, hs, h0s] =>
+    -- hidden-state toy: uninterrupted run, kill/new-process resume (hidden = h0), second run, same-process restore
+    match (do let u ← parseDrop us; let n ← parseNat ns; let k ← parseNat ks; let v ← parseInt vs
+              let h ← parseDrop hs; let h0 ← parseDrop h0s; if k ≤ n then pure (u, n, k, v, h, h0) else none) with
+    | some (u, n, k, v, h, h0) =>
+      let r := toyHidden u
+      let sh := fun (p : Int × Bool) => toString p.1 ++ "," ++ showBool p.2
+      sh (hrun r n (v, h)) ++ " " ++ showOpt sh (hresumeFrom r h0 k n (v, h)) ++ " " ++ sh (hrerun r n v h) ++ " " ++
+        showOpt sh (hrestoreSame r k n (v, h))
+    | none => "bad-op"
+  | ["mig", ps, es, is, ma] =>
+    -- individuals are `key.oid`; emigrants / immigrants are the recorded results of the selection / replacement calls
+    match (do let p ← parseDemes ps; let e ← parseDemes es; let i ← parseDemes is
+              let m ← (if ma = "none" then some none else (parseList parseNat ma).map some); pure (p, e, i, m)) with
+    | some (p, e, i, m) =>
+      showOpt showDemes (migRingWith (fun x : Nat × Nat => x.1) p e i m)
     | none => "bad-op"
   | _ => "bad-op"
 
